@@ -3,8 +3,10 @@ Model: coq/theories/Model/Loader.v ; theorems: Props/C13.v ; generator / writer 
 
 Correspondence: seeded abstract source trees are written as real files into a scratch directory and loaded by the real
 load_suites_from_directory (Metadata._next_rank preset); the loaded tree (names, descriptions, ranks, disabled, tags,
-parameters, order; or the error class) is compared with Model.Loader.load evaluated inside Coq on the same tree.
-Oracle: independent Python enumeration of the declared visible tests (gen_layouts.expected / oracle)."""
+properties (in dict order), links, of every test and every suite; parameters, order; or the error class) is compared with
+Model.Loader.load evaluated inside Coq on the same tree.
+Oracle: independent Python enumeration of the declared visible tests with their declared metadata, and of the metadata
+every suite declares (gen_layouts.expected / oracle)."""
 import json
 
 import lib
@@ -39,6 +41,18 @@ def c_obool(b):
     return c_opt(b, c_bool)
 
 
+def c_kv(kv):
+    return "(%s, %s)" % (c_str(kv[0]), c_str(kv[1]))
+
+
+def c_link(l):
+    return "(%s, %s)" % (c_str(l[0]), c_ostr(l[1]))
+
+
+def c_slink(l):
+    return "LStr %s" % c_str(l) if isinstance(l, str) else "LPair %s %s" % (c_str(l[0]), c_ostr(l[1]))
+
+
 def c_item(it):
     if it["k"] == "test":
         p = it["params"]
@@ -47,19 +61,23 @@ def c_item(it):
         else:
             nm = "NDefault" if p["naming"] is None else "(NTable %s)" % c_list(p["naming"], lambda nd: "(%s, %s)" % (c_str(nd[0]), c_str(nd[1])))
             ps = "(Some (%s, %s))" % (c_list(p["values"], c_nat), nm)
-        return ("ITest 0 {| t_attr := %s; t_name := %s; t_desc := %s; t_cond := %s; t_disabled := %s; t_tags := %s; t_params := %s |}"
+        return ("ITest 0 {| t_attr := %s; t_name := %s; t_desc := %s; t_cond := %s; t_disabled := %s; t_tags := %s; "
+                "t_props := %s; t_links := %s; t_params := %s |}"
                 % (c_str(it["attr"]), c_ostr(it["name"]), c_ostr(it["desc"]), c_obool(it["cond"]), c_bool(bool(it["disabled"])),
-                   c_list(it["tags"], c_str), ps))
-    return ("IClass 0 {| c_attr := %s; c_name := %s; c_desc := %s; c_rank := %s; c_cond := %s; c_disabled := %s; c_tags := %s |} %s"
+                   c_list(it["tags"], c_str), c_list(G.props_of(it), c_kv), c_list(G.links_of(it), c_link), ps))
+    return ("IClass 0 {| c_attr := %s; c_name := %s; c_desc := %s; c_rank := %s; c_cond := %s; c_disabled := %s; c_tags := %s; "
+            "c_props := %s; c_links := %s |} %s"
             % (c_str(it["attr"]), c_ostr(it["name"]), c_ostr(it["desc"]), c_opt(it["rank"], c_nat), c_obool(it["cond"]),
-               c_bool(bool(it["disabled"])), c_list(it["tags"], c_str), c_list(it["body"], lambda x: "(%s)" % c_item(x))))
+               c_bool(bool(it["disabled"])), c_list(it["tags"], c_str), c_list(G.props_of(it), c_kv), c_list(G.links_of(it), c_link),
+               c_list(it["body"], lambda x: "(%s)" % c_item(x))))
 
 
 def c_mod(m):
     s = m["suite"]
-    sd = "None" if s is None else ("(Some {| s_name := %s; s_desc := %s; s_rank := %s; s_cond := %s; s_tags := %s |})"
+    sd = "None" if s is None else ("(Some {| s_name := %s; s_desc := %s; s_rank := %s; s_cond := %s; s_tags := %s; "
+                                   "s_props := %s; s_links := %s |})"
                                    % (c_ostr(s["name"]), c_ostr(s["desc"]), c_opt(s["rank"], c_nat), c_obool(s["cond"]),
-                                      c_list(s["tags"], c_str)))
+                                      c_list(s["tags"], c_str), c_list(G.props_of(s), c_kv), c_list(G.links_of(s), c_slink)))
     return "{| m_file := %s; m_suite := %s; m_rank := 0; m_items := %s |}" % (c_str(m["file"]), sd, c_list(m["items"], lambda x: "(%s)" % c_item(x)))
 
 
@@ -68,13 +86,17 @@ def c_dir(d):
 
 
 def c_ltest(t):
-    return ("{| lt_name := %s; lt_desc := %s; lt_rank := %d; lt_disabled := %s; lt_tags := %s; lt_param := %s |}"
-            % (c_str(t["name"]), c_str(t["desc"]), t["rank"], c_bool(t["disabled"]), c_list(t["tags"], c_str), c_opt(t["param"], c_nat)))
+    return ("{| lt_name := %s; lt_desc := %s; lt_rank := %d; lt_disabled := %s; lt_tags := %s; lt_props := %s; lt_links := %s; "
+            "lt_param := %s |}"
+            % (c_str(t["name"]), c_str(t["desc"]), t["rank"], c_bool(t["disabled"]), c_list(t["tags"], c_str),
+               c_list(t.get("props", []), c_kv), c_list(t.get("links", []), c_link), c_opt(t["param"], c_nat)))
 
 
 def c_lsuite(s):
+    meta = "{| md_tags := %s; md_props := %s; md_links := %s |}" % (c_list(s["tags"], c_str), c_list(s.get("props", []), c_kv),
+                                                                   c_list(s.get("links", []), c_link))
     return "LSuite %s %s %d %s false %s %s %s" % (c_str(s["name"]), c_str(s["desc"]), s["rank"], c_bool(s["disabled"]),
-                                                 c_list(s["tags"], c_str), c_list(s["tests"], c_ltest),
+                                                 meta, c_list(s["tests"], c_ltest),
                                                  c_list(s["suites"], lambda x: "(%s)" % c_lsuite(x)))
 
 
@@ -91,13 +113,18 @@ HEADER = """From Coq Require Import List Arith Bool NArith.
 Import ListNotations.
 From LCC Require Import Base.Util Model.Loader.
 Definition strs_eqb := list_eqb str_eqb.
+Definition props_eqb := list_eqb (pair_eqb str_eqb str_eqb).
+Definition links_eqb := list_eqb (pair_eqb str_eqb (option_eqb str_eqb)).
+Definition meta_eqb (a b : meta) : bool :=
+  strs_eqb (md_tags a) (md_tags b) && props_eqb (md_props a) (md_props b) && links_eqb (md_links a) (md_links b).
 Definition ltest_eqb (a b : ltest) : bool :=
   str_eqb (lt_name a) (lt_name b) && str_eqb (lt_desc a) (lt_desc b) && Nat.eqb (lt_rank a) (lt_rank b) &&
-  Bool.eqb (lt_disabled a) (lt_disabled b) && strs_eqb (lt_tags a) (lt_tags b) && option_eqb Nat.eqb (lt_param a) (lt_param b).
+  Bool.eqb (lt_disabled a) (lt_disabled b) && strs_eqb (lt_tags a) (lt_tags b) && props_eqb (lt_props a) (lt_props b) &&
+  links_eqb (lt_links a) (lt_links b) && option_eqb Nat.eqb (lt_param a) (lt_param b).
 Fixpoint lsuite_eqb (a b : lsuite) : bool :=
   match a, b with
   | LSuite n1 d1 r1 di1 _ tg1 t1 s1, LSuite n2 d2 r2 di2 _ tg2 t2 s2 =>
-      str_eqb n1 n2 && str_eqb d1 d2 && Nat.eqb r1 r2 && Bool.eqb di1 di2 && strs_eqb tg1 tg2 && list_eqb ltest_eqb t1 t2 &&
+      str_eqb n1 n2 && str_eqb d1 d2 && Nat.eqb r1 r2 && Bool.eqb di1 di2 && meta_eqb tg1 tg2 && list_eqb ltest_eqb t1 t2 &&
       (fix go (l1 l2 : list lsuite) : bool :=
          match l1, l2 with [], [] => true | x :: r, y :: s => lsuite_eqb x y && go r s | _, _ => false end) s1 s2
   end.
@@ -140,8 +167,11 @@ def check(run):
         "modelled, not verified: importlib / module execution order (decorators run in source order, class bodies before the class "
         "decorator, one global rank counter), dir() and inspect predicates (alphabetical attribute order, last definition wins), "
         "glob/listdir + sorted (sorting file paths = sorting names), str.capitalize/replace/format on ASCII, naming schemes as tables",
-        "not modelled: hooks, injected fixtures, properties/links (same mechanism as tags), dependencies, generated tests, class "
-        "inheritance, import errors, metadata type checks, the text of the disabled reason",
+        "modelled, not verified: Python dict semantics (insertion order, d[k]=v on an existing key keeps its place, repeated keys "
+        "of a {...} literal), bottom-up application of decorators; only well-typed metadata (str keys/values/urls) is generated",
+        "not modelled: hooks, injected fixtures, dependencies, generated tests, class inheritance, import errors, metadata type "
+        "checks (_check_test_tree_node_types), the text of the disabled reason, the sharing of the tags/properties/links objects "
+        "between the copies of a parametrized test (copy.copy)",
     ]
     run.assume += ["module file names and directory names are distinct within one directory (file system)",
                    "C13_exact / C13_hidden_omitted are theorems about the loader WITH fixes/F16-*.patch (model variant fixed=true); "
@@ -207,7 +237,9 @@ def check(run):
     run.coverage["rule"] = ("seeded abstract source trees (gen_layouts.gen_tree: directories up to depth 3/4, modules with/without SUITE, "
                             "companion directories, directories without module, nested classes, single-class collapse and near misses, "
                             "hidden/visible_if/disabled/parametrized (0-3 values, default/table naming, csv form), explicit and colliding "
-                            "ranks, shadowed attributes, about 12% declared duplicates) written as real files and loaded by the real loader "
+                            "ranks, shadowed attributes, @lcc.tags / @lcc.prop (repeated keys) / @lcc.link (named, unnamed, repeated) on "
+                            "tests and classes, SUITE tags / properties / links (bare string and tuple entries), about 12% declared "
+                            "duplicates) written as real files and loaded by the real loader "
                             "with Metadata._next_rank preset, compared with Model.Loader.load in Coq; non-trivial = loads at least one suite "
                             "and uses a companion directory, a collapse, nested classes, parametrized tests or a module-less directory")
     run.coverage["model_variant"] = "fixed=%s" % fixed
